@@ -9,17 +9,19 @@ import (
 // Layout fixes everything about the written form of a program that is not part of
 // its meaning.
 type Layout struct {
-	Unit     string // indentation unit: 1-8 blanks or 1+ tabs
-	IndentIf bool   // if-clause bodies are indented one unit
-	EOL      string // "\n", "\r\n" or "\r"
-	Paren    int    // 0 minimal parentheses, 1 fully parenthesised, 2 minimal + redundant ones
-	Spell    bool   // pick operator spellings per occurrence
-	Blanks   bool   // extra blanks inside << >>, { } and around operators
-	Filler   int    // percent chance, per insertion point, of blank / white-space-only / comment lines
-	Trailing int    // percent chance of a trailing comment where one is allowed
-	NoFinalEOL bool // the last line of a reader has no line end
-	R        *core.Rand
-	Stats    map[string]int // what was actually rendered (for evidence)
+	Unit        string // indentation unit: 1-8 blanks or 1+ tabs
+	IndentIf    bool   // if-clause bodies are indented one unit
+	EOL         string // "\n", "\r\n" or "\r"
+	Paren       int    // 0 minimal parentheses, 1 fully parenthesised, 2 minimal + redundant ones
+	Spell       bool   // pick operator spellings per occurrence
+	Blanks      bool   // extra blanks inside << >>, { } and around operators
+	Filler      int    // percent chance, per insertion point, of blank / white-space-only / comment lines
+	Trailing    int    // percent chance of a trailing comment where one is allowed
+	NoFinalEOL  bool   // the last line of a reader has no line end
+	PerLineTabs bool   // every line picks, on its own, tabs or 8 blanks per level (same columns: a tab is 8 columns)
+	MixedBlank  bool   // white-space-only lines and the indentation of comment-only lines may mix tabs and blanks
+	R           *core.Rand
+	Stats       map[string]int // what was actually rendered (for evidence)
 }
 
 // L0 is the canonical layout.
@@ -43,6 +45,11 @@ func RandomLayout(r *core.Rand) *Layout {
 	l.Filler = []int{0, 15, 40, 70}[r.Intn(4)]
 	l.Trailing = []int{0, 20, 60}[r.Intn(3)]
 	l.NoFinalEOL = r.Chance(1, 3)
+	if r.Chance(1, 6) {
+		l.Unit = "        "
+		l.PerLineTabs = true
+	}
+	l.MixedBlank = r.Chance(1, 3)
 	return l
 }
 
@@ -83,6 +90,12 @@ func (l *Layout) Dims() []string {
 	}
 	if l.NoFinalEOL {
 		d = append(d, "no-final-eol")
+	}
+	if l.PerLineTabs {
+		d = append(d, "tabs-and-blanks-per-line")
+	}
+	if l.MixedBlank && l.Filler > 0 {
+		d = append(d, "mixed-whitespace-on-blank-lines")
 	}
 	return d
 }
@@ -216,7 +229,21 @@ type out struct {
 	lines []string
 }
 
-func (o *out) indent(depth int) string { return strings.Repeat(o.l.Unit, depth) }
+func (o *out) indent(depth int) string {
+	if o.l.PerLineTabs && o.l.R != nil && o.l.R.Bool() {
+		return strings.Repeat("\t", depth)
+	}
+	return strings.Repeat(o.l.Unit, depth)
+}
+
+// blankIndent is the white space of a filler line: it carries no statement, so it may even mix tabs and blanks.
+func (o *out) blankIndent(depth int) string {
+	if o.l.MixedBlank && o.l.R != nil && o.l.R.Chance(1, 2) {
+		o.l.stat("filler:mixed-tab-blank-whitespace")
+		return o.l.R.Pick(" \t", "\t ", "  \t  ", "\t\t ", " \t \t")
+	}
+	return o.indent(depth)
+}
 
 func (o *out) emit(depth int, s string) { o.lines = append(o.lines, o.indent(depth)+s) }
 
@@ -268,10 +295,10 @@ func (o *out) filler(depth int, pos string) {
 					where = "same"
 				}
 			}
-			o.lines = append(o.lines, o.indent(d))
+			o.lines = append(o.lines, o.blankIndent(d))
 			l.stat("filler:ws-only-" + where + "@" + pos)
 		default:
-			o.lines = append(o.lines, o.indent(d)+o.comment())
+			o.lines = append(o.lines, o.blankIndent(d)+o.comment())
 			l.stat("filler:comment-" + where + "@" + pos)
 		}
 	}
